@@ -249,23 +249,11 @@ def check_bin_payloads(tape_tokens, data):
             continue
         have.append((t, None))
     if len(have) != len(want):
-        # The one place where the tape parser removes payload tokens it has pushed is the "only empty objects so
-        # far" repair of `{ {} .. k = v }` (binary/tape.rs, EQUAL in ArrayValue): `chunks_exact(2)` ignores an odd
-        # trailing token, so `{ {} x k = v }` silently loses x.  C06 does not promise that nothing is dropped (that
-        # is C03's "tape mirrors the token stream"), only that what is on the tape equals the input at its position:
-        # with a ghost pair in the input the payload tokens must be a subsequence (increasing positions) of the
-        # lexemes; without one they must be all of them.
-        ghosts = any(lx[i][0] == "{" and lx[i + 1][0] == "}" for i in range(len(lx) - 1))
-        if len(have) > len(want) or not ghosts:
-            return "tape has %d payload tokens, the input has %d payload lexemes" % (len(have), len(want))
-        j = 0
-        for k, (hv, ho) in enumerate(have):
-            while j < len(want) and not (want[j][0] == hv and (ho is None or ho == want[j][1])):
-                j += 1
-            if j == len(want):
-                return "payload %d of the tape (%s) does not occur in the input after the previous payload's position" % (k, hv)
-            j += 1
-        return "dropped:%d" % (len(want) - len(have))
+        # The one place where the tape parser removes tokens it has pushed is the "only empty objects so far" repair
+        # of `{ {} .. k = v }` (binary/tape.rs, EQUAL in ArrayValue); since the fix for finding L (the test requires
+        # `pairs.remainder().is_empty()`) it removes `{ }` pairs only, never a payload token: the payload tokens of
+        # the tape are ALL payload lexemes of the input.
+        return "tape has %d payload tokens, the input has %d payload lexemes" % (len(have), len(want))
     for k, ((hv, ho), (wv, wo)) in enumerate(zip(have, want)):
         if hv != wv:
             return "payload %d of the tape is %s, the input has %s at offset %d" % (k, hv, wv, wo)
@@ -298,9 +286,7 @@ class Judge6(B.Judge):
                     continue
                 acc = True
                 bad = check_bin_payloads(toks, data)
-                if bad and bad.startswith("dropped:"):
-                    self.ctx.count("bin_payload_lexemes_dropped_after_ghost(C03-class,not-C06)")
-                elif bad:
+                if bad:
                     self.add("bin-payload", "%s parser accepted the input but %s" % (which, bad), c, impl[base + k], "payload tokens = payload lexemes of the input, in order")
                 bad = tapewf.check_tape(toks)
                 if bad:
@@ -410,9 +396,7 @@ def run_bin(ctx):
         if bad:
             judge.add("tape-not-wf", "accepted tape is not structurally sound: %s" % bad, pcases[k], o, "sound tape")
         bad = check_bin_payloads(toks, d)
-        if bad and bad.startswith("dropped:"):
-            ctx.count("bin_payload_lexemes_dropped_after_ghost(C03-class,not-C06)")
-        elif bad:
+        if bad:
             judge.add("bin-payload", "accepted, but %s" % bad, pcases[k], o, "payload tokens = payload lexemes of the input, in order; strings point at their lexeme")
         if len(plain) <= 40 and len(real_tapes) < 3000:
             real_tapes.append(plain)
